@@ -354,12 +354,16 @@ class Erase(ast.NodeTransformer):
 
     def visit_Await(self, node):
         self.hit("await")
-        return self.visit(node.value)
+        inner = self.visit(node.value)
+        inner._awaited = True
+        return inner
 
     def visit_Call(self, node):
         self.generic_visit(node)
         if isinstance(node.func, ast.Name) and node.func.id in UNWRAP_CALLS and len(node.args) == 1 and not node.keywords:
             self.hit(node.func.id)
+            if node.func.id == "auto_aiter":
+                node.args[0]._aitered = True
             return node.args[0]
         if isinstance(node.func, ast.Name) and node.func.id == "auto_to_list" and len(node.args) == 1 and not node.keywords:
             self.hit("auto_to_list")
@@ -506,6 +510,52 @@ class Alpha(ast.NodeTransformer):
         return node
 
 
+def missing_async(async_tree, erased_tree):
+    """the other direction of the validation: every site where the compiler must await / iterate asynchronously does so.
+    `async_tree` is the parsed async-mode code, `erased_tree` its erasure (nodes that stood under an `await` carry `_awaited`,
+    arguments of `auto_aiter` carry `_aitered`).  Must be awaited: `context.call` / `environment.call` (visit_Call),
+    `environment.getattr` / `environment.getitem`, every filter and test temporary, the recursive `loop(…)`, the module
+    accessors `make_module` / `_get_default_module`, `.close()` of a generator (was `aclose`).  Must be asynchronous: every
+    function, every `for` except the ones over `._body_stream` / `parent_template.blocks.items()`; `LoopContext` must not occur."""
+    out = []
+    temps = set()
+    for n in ast.walk(erased_tree):
+        if isinstance(n, ast.Assign) and len(n.targets) == 1 and isinstance(n.targets[0], ast.Name) and _TEMP.match(n.targets[0].id) \
+                and isinstance(n.value, ast.Subscript) and isinstance(n.value.value, ast.Attribute) \
+                and n.value.value.attr in ("filters", "tests") and _is_name(n.value.value.value, "environment"):
+            temps.add(n.targets[0].id)
+    for n in ast.walk(erased_tree):
+        if not isinstance(n, ast.Call):
+            continue
+        f = n.func
+        need = None
+        if isinstance(f, ast.Attribute) and isinstance(f.value, ast.Name):
+            if f.attr == "call" and f.value.id in ("context", "environment"):
+                need = f.value.id + ".call"
+            elif f.attr in ("getattr", "getitem") and f.value.id == "environment":
+                need = "environment." + f.attr
+        if isinstance(f, ast.Attribute) and f.attr in ("make_module", "_get_default_module", "close"):
+            need = "." + f.attr
+        if isinstance(f, ast.Name) and (f.id in temps or f.id == "loop"):
+            need = "filter/test temporary" if f.id in temps else "recursive loop call"
+        if need and not getattr(n, "_awaited", False):
+            out.append(f"{need}(…) is not awaited")
+        if isinstance(f, ast.Name) and f.id == "loop" and n.args and not getattr(n.args[0], "_aitered", False):
+            out.append("recursive loop call: iterable not passed through auto_aiter")
+    for n in ast.walk(async_tree):
+        if isinstance(n, ast.FunctionDef) and not any(isinstance(d, ast.Name) and d.id == "internalcode" for d in n.decorator_list):
+            out.append(f"def {n.name} is not async")
+        elif isinstance(n, ast.For):
+            it = ast.unparse(n.iter)
+            if not (it.endswith("._body_stream") or it == "parent_template.blocks.items()"):
+                out.append(f"sync for over {it[:60]}")
+        elif isinstance(n, ast.Name) and n.id == "LoopContext":
+            out.append("LoopContext instead of AsyncLoopContext")
+        elif isinstance(n, ast.YieldFrom):
+            out.append("yield from in async code")
+    return sorted(set(out))
+
+
 ASYNC_NODES = (ast.AsyncFunctionDef, ast.AsyncFor, ast.AsyncWith, ast.Await)
 ASYNC_NAMES = {"auto_await", "auto_aiter", "auto_to_list", "AsyncLoopContext"}
 
@@ -530,9 +580,13 @@ def normal_form(src: str, erase: bool):
     tree = ast.parse(src)
     counts = {}
     if erase:
+        original = ast.parse(src)
         e = Erase()
         tree = e.visit(tree)
         counts.update(e.count)
+        missing = missing_async(original, tree)
+        if missing:
+            raise NotErasable("missing: " + "; ".join(missing[:4]))
     s = Scaffold()
     tree = s.visit(tree)
     for k, v in s.count.items():
